@@ -32,6 +32,8 @@ type Program struct {
 	AllowedErr []string // allow-listed type errors actually seen
 	RepoDir    string
 
+	entryLS   map[*ssa.Function]lockSet
+	reach     map[*ssa.Function]bool
 	phiHook   func(*ssa.Phi) ssa.Value
 	domCache  map[*ssa.Function]*domInfo
 	termCache map[termKey]*Term
@@ -369,4 +371,45 @@ func instrPos(in ssa.Instruction) token.Pos {
 		return b.Parent().Pos()
 	}
 	return token.NoPos
+}
+
+// Production: the function is reachable (VTA call graph) from the program's
+// entry points — main.main and the package initialisers of the module — and
+// is not test scaffolding. Functions only tests use (helpers, dead code) are
+// outside every "for all sites" quantifier.
+func (p *Program) Production(fn *ssa.Function) bool {
+	if p.reach == nil {
+		p.reach = map[*ssa.Function]bool{}
+		cg := p.CallGraph()
+		var work []*ssa.Function
+		push := func(f *ssa.Function) {
+			if f != nil && !p.reach[f] {
+				p.reach[f] = true
+				work = append(work, f)
+			}
+		}
+		for path, sp := range p.SSAPkg {
+			if !p.inModule(path) || strings.HasPrefix(path, modPath+"/testutils") || strings.HasPrefix(path, modPath+"/tests") {
+				continue
+			}
+			push(sp.Func("init"))
+			if sp.Pkg.Name() == "main" {
+				push(sp.Func("main"))
+			}
+		}
+		for len(work) > 0 {
+			f := work[len(work)-1]
+			work = work[:len(work)-1]
+			if n := cg.Nodes[f]; n != nil {
+				for _, e := range n.Out {
+					push(e.Callee.Func)
+				}
+			}
+			// closures created by a reachable function are reachable (they may be stored and called by libraries)
+			for _, a := range f.AnonFuncs {
+				push(a)
+			}
+		}
+	}
+	return p.reach[fn] && !p.isTestScaffold(fn)
 }
